@@ -40,6 +40,7 @@ type natRun struct {
 	base time.Time
 	last int
 	seen [][2]int // external addresses in order of first allocation
+	cur  [2]int   // external address of the latest translated outbound datagram
 	rng  *rand.Rand
 }
 
@@ -114,6 +115,7 @@ func (r *natRun) out(src, dst [2]int) {
 	default:
 		e := addrPair(to.SourceAddr())
 		m["ext"] = e
+		r.cur = e
 		m["intact"] = string(to.UserData()) == string(pl) && addrPair(to.DestinationAddr()) == dst &&
 			addrPair(c.SourceAddr()) == src // the caller's chunk is not modified
 		known := false
@@ -212,7 +214,11 @@ func TestVerifNATRandom(t *testing.T) { //nolint:cyclop,gocognit
 					r = newNatRun(tr, rng, "napt", behs[ti/3], behs[ti%3], life)
 				}
 				internal := func() [2]int { return [2]int{10 + rng.Intn(3), 1 + rng.Intn(4)} }
-				remote := func() [2]int { return [2]int{20 + rng.Intn(3), 1 + rng.Intn(3)} }
+				// remote addresses whose textual forms are prefixes of each other (10.0.0.3 / .30 / .31 / .250 / .25,
+				// ports 8 / 80 / 800)
+				rips := []int{3, 30, 31, 250, 25}
+				rports := []int{8, 80, 800}
+				remote := func() [2]int { return [2]int{rips[rng.Intn(3+2*(ti%2))], rports[rng.Intn(3)]} }
 				var contacted [][2]int
 				for i := 0; i < ops; i++ {
 					switch c := rng.Intn(100); {
@@ -229,7 +235,7 @@ func TestVerifNATRandom(t *testing.T) { //nolint:cyclop,gocognit
 								src[1] += 7 // same ip, other port
 							}
 						default:
-							src = [2]int{30 + rng.Intn(2), 1 + rng.Intn(2)} // never contacted
+							src = [2]int{rips[rng.Intn(len(rips))], rports[rng.Intn(3)]} // possibly never contacted
 						}
 						var dst [2]int
 						switch {
@@ -260,7 +266,7 @@ func TestVerifNATExhaust(t *testing.T) {
 	tr := vrt.Open()
 	defer tr.Close()
 	rng := rand.New(rand.NewSource(vrt.Seed())) //nolint:gosec
-	n := vrt.EnvInt("VERIF_N", 16500)
+	n := vrt.EnvInt("VERIF_N", 16440)
 	variants := []time.Duration{100 * time.Millisecond}
 	if vrt.EnvInt("VERIF_ALIVE", 0) == 1 {
 		variants = append(variants, time.Hour)
@@ -273,19 +279,47 @@ func TestVerifNATExhaust(t *testing.T) {
 				dst := [2]int{20 + i/60000, 1 + i%60000}
 				r.out(src, dst)
 				if i%50 == 0 || i > n-300 {
-					r.in(dst, r.seen[len(r.seen)-1]) // the remote answers to the newest external address
+					r.in(dst, r.cur) // the remote answers to the external address it saw
 				}
 				time.Sleep(time.Millisecond)
 			}
 			// the first remote answers to the very first external address: long expired (short lifetime)
 			r.in([2]int{20, 1}, r.seen[0])
-			// early flows resume after the port range has wrapped: their old ports belong to others now
+			// early flows resume right after the port range has wrapped: their old ports belong to
+			// younger mappings now, which are still alive
+			wrapped := n - 16384 // flows 16384.. hold the ports of flows 0..
+			keep := [][2]int{{20, 1 + 16384}, {20, 1 + 16385}, {20, 1}, {20, 2}}
 			for i := 0; i < 120; i++ {
 				dst := [2]int{20, 1 + i}
 				r.out(src, dst)
+				if i%30 == 0 {
+					r.out(src, keep[0])
+					r.out(src, keep[1])
+				}
+				if i < wrapped {
+					heir := [2]int{20, 1 + 16384 + i}
+					r.in(heir, r.seen[i]) // the younger mapping keeps its inbound path
+				}
 				if i%3 == 0 {
 					r.in([2]int{20, 16300 + i/3}, r.seen[len(r.seen)-1-rng.Intn(20)])
 					r.out(src, [2]int{20, 16300 + i/3}) // a recent flow sends again
+				}
+				time.Sleep(time.Millisecond)
+			}
+			if vrt.EnvInt("VERIF_WRAP2", 1) == 0 || life > time.Second {
+				return
+			}
+			// a second trip round the range while a few flows are kept alive by outbound traffic:
+			// their ports have to be passed over
+			for j := 0; j < 16500; j++ {
+				r.out(src, [2]int{30 + j/60000, 1 + j%60000})
+				if j%40 == 0 {
+					for _, kd := range keep {
+						r.out(src, kd)
+					}
+				}
+				if j%500 == 0 || j > 16300 {
+					r.in(keep[j%len(keep)], r.seen[(j%len(keep))%2]) // addresses 0 and 1 are those of keep[0], keep[1]
 				}
 				time.Sleep(time.Millisecond)
 			}
@@ -309,7 +343,7 @@ func TestVerifNATLifetime(t *testing.T) {
 			for _, b := range gaps {
 				synctest.Test(t, func(*testing.T) {
 					r := newNatRun(tr, rng, "napt", behs[ti/3], behs[ti%3], life)
-					src, dst := [2]int{10, 7}, [2]int{20, 3}
+					src, dst := [2]int{10, 7}, [2]int{200, 30}
 					r.out(src, dst)
 					ext := r.seen[0]
 					time.Sleep(fr(a))
@@ -324,7 +358,9 @@ func TestVerifNATLifetime(t *testing.T) {
 					r.out(src, dst)
 					time.Sleep(fr(0.5))
 					r.in(dst, ext)
-					r.in([2]int{20, 4}, ext)
+					r.in([2]int{200, 4}, ext)
+					r.in([2]int{20, 30}, ext) // 10.0.0.20 is a textual prefix of 10.0.0.200
+					r.in([2]int{200, 3}, ext)
 					r.in(dst, [2]int{2, ext[1]}) // same port on the router's other address
 				})
 			}
